@@ -254,6 +254,21 @@ func runE1Case(r *verifkit.Run, pf e1Profile, id string, rng *rand.Rand) map[str
 	}
 
 	if alive && pf.prop == "C11" {
+		if rng.IntN(2) == 0 {
+			// the state machine stand-in shows up late: it enters a round of the voting height
+			// that the mirror left two or more rounds ago, and must be sent on
+			if vh, vr, _, _, okp := n.pos(); okp && vr >= 2 {
+				back := 2 + uint32(rng.IntN(int(vr)-1))
+				resp, oke := n.smEnter(vh, vr-back, nil)
+				cs.logf("SM enter late %d/%d (mirror at %d/%d) -> vrv=%v ok=%v", vh, vr-back, vh, vr, resp.IsVRV(), oke)
+				cs.count("c11.late-entrance-into-dropped-round")
+				if !mo.afterStep() {
+					alive = handleDeath()
+				}
+			}
+		}
+	}
+	if alive && pf.prop == "C11" {
 		mo.c11quiesce()
 	}
 
@@ -277,6 +292,7 @@ func runE1Case(r *verifkit.Run, pf e1Profile, id string, rng *rand.Rand) map[str
 	cs.counter["forged_list_copies_delivered"] += int64(g.forgedCopies)
 	cs.counter["c11_views_judged"] += int64(mo.c11.viewsJudged)
 	cs.counter["c11_jump_ahead_views_judged"] += int64(mo.c11.jumpAheadsJudged)
+	cs.counter["c11_orphaned_entrances_judged_at_quiescence"] += int64(mo.c11.orphansJudged)
 	cs.counter["c11_same_version_content_comparisons"] += int64(mo.c11.sameVersionCompared)
 	cs.counter["c11_jump_ahead_views_judged_for_justifying_votes"] += int64(mo.c11.jumpAheadsLive)
 	cs.counter["c11_updates_judged"] += int64(mo.c11.updatesJudged)
